@@ -15,7 +15,7 @@ pub const CLASSES: [&str; 26] = [
     "if", "then", "else", "and", "==", "+", "-", "*", "&", "contains", "in", "!", ".", "x", "0", "(", ")", "[", "]", "{", "}", ",", ":", "i1", "int", "none",
 ];
 
-pub const C07_KINDS: [DisKind; 4] = [DisKind::OverAccept, DisKind::OverReject, DisKind::Tree, DisKind::Position];
+pub const C07_KINDS: [DisKind; 5] = [DisKind::OverAccept, DisKind::OverReject, DisKind::Tree, DisKind::Position, DisKind::AcceptsBadLiteral];
 
 const RULE_PREFIX: &str = "// n\n@k: i1;\n";
 
@@ -174,6 +174,30 @@ fn matrix_leg(g: &Grammar, triples: bool) -> Acc {
         texts.push(format!("x {a} if a then b else c"));
         texts.push(format!("(if a then b else c) {a} x"));
         texts.push(format!("f(x {a} y) {a} [x {a} y, z]"));
+    }
+    // map literals with repeated keys (the entry written last is the map's entry), every key
+    // sequence of length 2..4 over {a, b}, distinct values, with and without a trailing comma, and
+    // list literals with and without one
+    for n in 2..=4usize {
+        for code in 0..(1u32 << n) {
+            let items: Vec<String> = (0..n).map(|i| format!("{}: i{}", if code >> i & 1 == 0 { "a" } else { "b" }, i + 1)).collect();
+            texts.push(format!("{{{}}}", items.join(", ")));
+            texts.push(format!("{{{},}}", items.join(", ")));
+            texts.push(format!("{{{}}}.a", items.join(", ")));
+            texts.push(format!("[{{{},}}, {{{}}}]", items.join(", "), items.join(", ")));
+            let vals: Vec<String> = (0..n).map(|i| format!("i{}", i + 1)).collect();
+            texts.push(format!("[{}]", vals.join(", ")));
+            texts.push(format!("[{},]", vals.join(", ")));
+        }
+    }
+    for t in ["{a: x, a: y, a: z,}", "{a: {a: i1, a: i2,}, a: {a: i3, a: i4}, b: i5}", "{,}", "[,]", "{a: i1,,}", "[i1,,]", "{a: i1 a: i2}"] {
+        texts.push(t.to_string());
+    }
+    // index steps beyond the platform's index range denote nothing, wherever they stand
+    for d in ["18446744073709551615", "18446744073709551616", "18446744073709551617", "36893488147419103232", "170141183460469231731687303715884105727", "170141183460469231731687303715884105728", "340282366920938463463374607431768211456", "99999999999999999999", "100000000000000000000000000000000000000000"] {
+        for t in [format!("x.{d}"), format!("x.a.{d}.b"), format!("[x].{d}"), format!("(x).{d} + i1"), format!("x.0.{d}"), format!("f(x.{d})"), format!("{{k: x.{d}}}"), format!("if x.{d} then a else b")] {
+            texts.push(t);
+        }
     }
     for u in ["-", "!"] {
         for v in ["-", "!"] {
